@@ -226,6 +226,73 @@ for fname, opc, fn in (('filter_lt_f64', 0, z3.fpLT), ('filter_gt_f64', 2, z3.fp
                 expect = expect | z3.If(fn(v.v, thr.v), z3.BitVecVal(1 << i, 64), z3.BitVecVal(0, 64))
             ck.require(ex, 'V1_f64_filters_match_scalar', r.pc, None, got == expect, wit, lambda m, w: 'simd-f64')
 
+# i64 kernels a second time, in the MIR executor with wide::i64x4 by its lane-wise contract (Kani executes the real
+# `wide` code but stops at SIMD intrinsics it does not know, e.g. lane arithmetic; this engine does not depend on that)
+def _i64x4_new(c):
+    arr = c.args[0]
+    return Struct('i64x4', {'lanes': list(arr.items(c.st))})
+
+
+def _i64x4_splat(c):
+    return Struct('i64x4', {'lanes': [c.args[0]] * 4})
+
+
+def _i64x4_cmp(op):
+    def f(c):
+        a, b = _lanes(c, 0), _lanes(c, 1)
+        fn = {'lt': lambda x, y: x < y, 'gt': lambda x, y: x > y, 'eq': lambda x, y: x == y}[op]
+        return Struct('i64x4', {'lanes': [Int(z3.simplify(z3.If(fn(x.v, y.v), z3.BitVecVal(-1, 64), z3.BitVecVal(0, 64))), True) for x, y in zip(a, b)]})
+    return f
+
+
+def _i64x4_arith(op):
+    def f(c):
+        a, b = _lanes(c, 0), _lanes(c, 1)
+        fn = {'add': lambda x, y: x + y, 'sub': lambda x, y: x - y, 'and': lambda x, y: x & y, 'or': lambda x, y: x | y, 'xor': lambda x, y: x ^ y}[op]
+        return Struct('i64x4', {'lanes': [Int(z3.simplify(fn(x.v, y.v)), True) for x, y in zip(a, b)]})     # lane arithmetic wraps
+    return f
+
+
+def _i64x4_into(c):
+    return Seq('i64', list(_lanes(c, 0)))
+
+
+ex.extra_models.update({'i64x4::new': _i64x4_new, 'i64x4::splat': _i64x4_splat, '<i64x4 as From<[i64; 4]>>::from': _i64x4_new,
+                        '<i64x4 as CmpLt>::cmp_lt': _i64x4_cmp('lt'), '<i64x4 as CmpGt>::cmp_gt': _i64x4_cmp('gt'), '<i64x4 as CmpEq>::cmp_eq': _i64x4_cmp('eq'),
+                        '<i64x4 as Add>::add': _i64x4_arith('add'), '<i64x4 as Sub>::sub': _i64x4_arith('sub'), '<i64x4 as BitAnd>::bitand': _i64x4_arith('and'),
+                        '<i64x4 as BitOr>::bitor': _i64x4_arith('or'), '<i64x4 as BitXor>::bitxor': _i64x4_arith('xor'),
+                        '<[i64; 4] as From<i64x4>>::from': _i64x4_into, '<i64x4 as Into<[i64; 4]>>::into': _i64x4_into, 'i64x4::to_array': _i64x4_into,
+                        'i64x4::as_array_ref': lambda c: ref(Seq('i64', list(_lanes(c, 0))))})
+ck.declare('V3_i64_filters_match_scalar', f'0..{NF} symbolic i64 values, arbitrary threshold and pre-set result bits (MIR executor, wide::i64x4 by contract)',
+           'filter_{lt,le,gt,ge,eq,ne}_i64 set bit i exactly when the scalar comparison holds (or the bit was already set) and touch no other bit')
+ck.assumptions.append('V3: wide::i64x4 is modelled by its lane-wise contract (new/splat/cmp_*/wrapping lane arithmetic/into array); V2 executes the real wide code under Kani')
+I64OPS = (('lt', 0, lambda x, t: x < t), ('le', 1, lambda x, t: x <= t), ('gt', 2, lambda x, t: x > t), ('ge', 3, lambda x, t: x >= t),
+          ('eq', 4, lambda x, t: x == t), ('ne', 5, lambda x, t: x != t))
+for oname, opc, fn in I64OPS:
+    for n in sorted({0, 3, 4, NF}):
+        xs = [z3.BitVec(f'y{i}', 64) for i in range(n)]
+        tv = z3.BitVec('ithr', 64)
+        pre = z3.BitVec('ipre', 64)
+        st = ex.new_state()
+        st.roots['res'] = Seq('u64', [Int(pre, False)])
+        rs = run(st, f'filter_{oname}_i64', [ref(Seq('i64', [Int(x, True) for x in xs])), Int(tv, True), ref(st.roots['res'])])
+        ck.note_path_problem(rs, f'filter_{oname}_i64')
+        for r in rs:
+            wit = lambda m, opc=opc, xs=xs: {'simd': 'i64', 'opc': opc, 'vals': [mval(m, x, signed=True) for x in xs], 'thr': mval(m, tv, signed=True), 'pre': mval(m, pre)}
+            if r.status == 'panic':
+                ck.require(ex, 'V3_i64_filters_match_scalar', r.pc, None, z3.BoolVal(False), wit, lambda m, w: 'simd-panic')
+                continue
+            if r.status != 'return':
+                continue
+            got = r.st.roots['res'].items(r.st)[0].v
+            # bit by bit (one lane per query: the monolithic 64-bit equality takes z3 half a minute per path)
+            for i, x in enumerate(xs):
+                bit = z3.simplify(z3.Extract(i, i, got))
+                want = z3.Extract(i, i, pre) | z3.If(fn(x, tv), z3.BitVecVal(1, 1), z3.BitVecVal(0, 1))
+                ck.require(ex, 'V3_i64_filters_match_scalar', r.pc, None, bit == want, wit, lambda m, w: 'simd-i64')
+            if n < 64:
+                ck.require(ex, 'V3_i64_filters_match_scalar', r.pc, None, z3.simplify(z3.Extract(63, n, got)) == z3.Extract(63, n, pre), wit, lambda m, w: 'simd-i64')
+
 ck.declare('V2_i64_filters_match_scalar_kani', 'Kani/CBMC, all i64 values', 'filter_{lt,le,gt,ge,eq,ne}_i64 and bitmap_and/or agree bit for bit with the scalar predicate (real wide::i64x4 code)')
 flt = ['q_filter', 'bitmap_ops'] if T == 'quick' else ['t_filter', 'bitmap_ops']
 kres, kout = kani_run(ck, flt, timeout_s=1500 if T == 'quick' else 7200)
